@@ -19,7 +19,11 @@ FromLog(r) ==
 
 (* base / hunit: the history's amount map (harness): a real amount a * 2^base + v is
    logged as a' * hunit + v *)
-ObsOf(r) == [inexact |-> r.inexact, invBroken |-> r.invBroken, base |-> r.base, hunit |-> r.hunit]
+SetOf(sq) == {sq[i] : i \in DOMAIN sq}
+ObsOf(r) == [inexact |-> r.inexact, invBroken |-> r.invBroken, base |-> r.base, hunit |-> r.hunit,
+             raw |-> [cls |-> SetOf(r.raw.cls), mts |-> [c \in DOMAIN r.raw.mts |-> SetOf(r.raw.mts[c])],
+                      sup |-> r.raw.sup, bal |-> r.raw.bal],
+             q |-> r.q]
 
 TraceInit ==
   /\ Trace[1].ev.name = "Init"
@@ -41,7 +45,7 @@ TraceNext ==
         /\ IF e.name = "Init"
            THEN /\ gh' = GhostOf(t) /\ pre' = t
                 /\ UNCHANGED <<drift, driftAt>>
-           ELSE /\ gh' = GhostStep(gh, st, e, t) /\ pre' = st
+           ELSE /\ gh' = CovStep(gh, st, e, t) /\ pre' = st
                 /\ LET d == Predicted(st, e) # Observed(e, t) IN
                    /\ drift' = drift + (IF d THEN 1 ELSE 0)
                    /\ driftAt' = IF d /\ driftAt = 0 THEN l ELSE driftAt
@@ -65,6 +69,9 @@ Clauses ==
    C15_Authority |-> C15_Authority(pre, ev, st),
    C15_FreshIds |-> C15_FreshIds(pre, ev, st, gh),
    Rejected_NoEffect |-> Rejected_NoEffect(pre, ev, st),
+   C15_StoreSum |-> C15_StoreSum(obs.raw),
+   C15_Reported |-> C15_Reported(st, obs.raw, obs.q),
+   X15_ReadBack |-> X15_ReadBack(st, obs.raw, obs.q),
    X15_Counters |-> X15_Counters(st),
    X15_Records |-> X15_Records(pre, ev, st),
    X15_Fidelity |-> X15_Fidelity(pre, ev, st),
@@ -84,6 +91,90 @@ BaseNum(c) == CASE c = "base31" -> 31 [] c = "base32" -> 32 [] c = "base53" -> 5
                 [] c = "base62" -> 62 [] c = "base63" -> 63
 IsOwner == HasDenom(pre, ev.cls) /\ pre.cls[ev.cls].owner = ev.who
 IsStranger == HasDenom(pre, ev.cls) /\ pre.cls[ev.cls].owner # ev.who
+(* negative probing / unusual inputs (round 7) *)
+Rej(n) == IsOp(n) /\ ~ev.ok
+Acc(n) == IsOp(n) /\ ev.ok
+Plain == ev.form = ""
+PreHasMT == HasMT(pre, ev.cls, ev.id)
+PreBal(a) == BalOf(pre, a, ev.cls, ev.id)
+Holders == {a \in UsersOf(pre) : PreBal(a) > 0}
+ExOwner == <<ev.cls, ev.who>> \in gh.exOwner
+ExHolder == <<ev.who, ev.cls, ev.id>> \in gh.exHolder
+ElsewhereOnly == ~PreHasMT /\ \E d \in DOMAIN pre.mts : ev.id \in DOMAIN pre.mts[d]
+AmtOps == {"MintMT", "TransferMT", "BurnMT"}
+ProbeNames ==
+  {"form_split_rej", "form_idupper_rej", "form_idprefix_rej", "form_idspace_rej", "form_idspace_mint_ok",
+   "form_idspace_mint_new_ok", "form_clsupper_rej", "form_clsprefix_rej", "form_clsspace_rej",
+   "form_owner_mint_rej", "form_holder_transfer_rej", "form_holder_burn_rej",
+   "other_class_mint_rej", "other_class_edit_rej", "other_class_transfer_rej", "other_class_burn_rej",
+   "no_class_rej", "no_mt_mint_rej", "no_mt_edit_rej",
+   "module_sender_rej", "mint_to_module_ok", "transfer_to_module_ok", "handover_to_module_ok",
+   "module_held_rej", "zero_amount_mint_rej", "zero_amount_transfer_rej", "zero_amount_burn_rej",
+   "transfer_one_above_rej", "burn_one_above_rej", "burn_all_ok", "transfer_all_to_holder_ok",
+   "transfer_to_zero_holder_ok", "exholder_transfer_rej", "exholder_burn_rej", "never_holder_transfer_rej",
+   "burned_out_mint_ok", "burned_out_edit_ok", "burned_out_transfer_rej", "burned_out_burn_rej",
+   "holder_not_owner_mint_rej", "holder_not_owner_edit_rej", "holder_not_owner_handover_rej",
+   "owner_not_holder_transfer_rej", "owner_not_holder_burn_rej", "exowner_edit_rej", "exowner_handover_rej",
+   "exowner_still_holder_transfer_ok", "handover_to_self_ok", "mint_data_on_existing_rej", "issue_blank_name_rej",
+   "mint_default_recipient_ok", "second_class_same_owner_ok", "probe_state_rej"}
+ProbeEx(c) ==
+  CASE c = "form_split_rej" -> ~ev.ok /\ ev.form = "split" /\ PreHasMT
+    [] c = "form_idupper_rej" -> ~ev.ok /\ ev.form = "idupper" /\ PreHasMT
+    [] c = "form_idprefix_rej" -> ~ev.ok /\ ev.form = "idprefix" /\ PreHasMT
+    [] c = "form_idspace_rej" -> ~ev.ok /\ ev.form = "idspace" /\ PreHasMT /\ ev.name \in {"EditMT", "TransferMT", "BurnMT"}
+    [] c = "form_idspace_mint_ok" -> Acc("MintMT") /\ ev.form = "idspace" /\ ev.id # ""
+    [] c = "form_idspace_mint_new_ok" -> Acc("MintMT") /\ ev.form = "idspace" /\ ev.id = ""
+    [] c = "form_clsupper_rej" -> ~ev.ok /\ ev.form = "clsupper" /\ HasDenom(pre, ev.cls)
+    [] c = "form_clsprefix_rej" -> ~ev.ok /\ ev.form = "clsprefix" /\ HasDenom(pre, ev.cls)
+    [] c = "form_clsspace_rej" -> ~ev.ok /\ ev.form = "clsspace" /\ HasDenom(pre, ev.cls)
+    [] c = "form_owner_mint_rej" -> Rej("MintMT") /\ ~Plain /\ IsOwner /\ PreHasMT /\ ev.amt > 0 /\ ev.data = ""
+    [] c = "form_holder_transfer_rej" -> Rej("TransferMT") /\ ~Plain /\ PreHasMT /\ ev.amt > 0 /\ PreBal(ev.who) >= ev.amt
+    [] c = "form_holder_burn_rej" -> Rej("BurnMT") /\ ~Plain /\ PreHasMT /\ ev.amt > 0 /\ PreBal(ev.who) >= ev.amt
+    [] c = "other_class_mint_rej" -> Rej("MintMT") /\ Plain /\ IsOwner /\ ElsewhereOnly /\ ev.amt > 0
+    [] c = "other_class_edit_rej" -> Rej("EditMT") /\ Plain /\ IsOwner /\ ElsewhereOnly
+    [] c = "other_class_transfer_rej" -> Rej("TransferMT") /\ Plain /\ HasDenom(pre, ev.cls) /\ ElsewhereOnly /\ ev.amt > 0
+                                          /\ \E d \in DOMAIN pre.mts : BalOf(pre, ev.who, d, ev.id) >= ev.amt
+    [] c = "other_class_burn_rej" -> Rej("BurnMT") /\ Plain /\ HasDenom(pre, ev.cls) /\ ElsewhereOnly /\ ev.amt > 0
+                                      /\ \E d \in DOMAIN pre.mts : BalOf(pre, ev.who, d, ev.id) >= ev.amt
+    [] c = "no_class_rej" -> ~ev.ok /\ Plain /\ ev.cls # "" /\ ~HasDenom(pre, ev.cls) /\ ev.name # "IssueDenom" /\ ev.name # "TxFailed"
+    [] c = "no_mt_mint_rej" -> Rej("MintMT") /\ Plain /\ IsOwner /\ ev.id # "" /\ ~PreHasMT /\ ~ElsewhereOnly /\ ev.amt > 0
+    [] c = "no_mt_edit_rej" -> Rej("EditMT") /\ Plain /\ IsOwner /\ ev.id # "" /\ ~PreHasMT /\ ~ElsewhereOnly
+    [] c = "module_sender_rej" -> ~ev.ok /\ ev.who \in Unsignable
+    [] c = "mint_to_module_ok" -> Acc("MintMT") /\ ev.to \in Unsignable
+    [] c = "transfer_to_module_ok" -> Acc("TransferMT") /\ ev.to \in Unsignable
+    [] c = "handover_to_module_ok" -> Acc("TransferDenom") /\ ev.to \in Unsignable
+    [] c = "module_held_rej" -> ~ev.ok /\ ev.name \in {"TransferMT", "BurnMT"} /\ ev.who \in Unsignable /\ PreHasMT /\ PreBal(ev.who) >= ev.amt /\ ev.amt > 0
+    [] c = "zero_amount_mint_rej" -> Rej("MintMT") /\ ev.amt = 0 /\ IsOwner
+    [] c = "zero_amount_transfer_rej" -> Rej("TransferMT") /\ ev.amt = 0 /\ PreHasMT /\ PreBal(ev.who) > 0
+    [] c = "zero_amount_burn_rej" -> Rej("BurnMT") /\ ev.amt = 0 /\ PreHasMT /\ PreBal(ev.who) > 0
+    [] c = "transfer_one_above_rej" -> Rej("TransferMT") /\ Plain /\ PreHasMT /\ PreBal(ev.who) > 0 /\ ev.amt = PreBal(ev.who) + 1
+    [] c = "burn_one_above_rej" -> Rej("BurnMT") /\ Plain /\ PreHasMT /\ PreBal(ev.who) > 0 /\ ev.amt = PreBal(ev.who) + 1
+    [] c = "burn_all_ok" -> Acc("BurnMT") /\ ev.amt = PreBal(ev.who)
+    [] c = "transfer_all_to_holder_ok" -> Acc("TransferMT") /\ ev.to # ev.who /\ ev.amt = PreBal(ev.who) /\ PreBal(ev.to) > 0
+    [] c = "transfer_to_zero_holder_ok" -> Acc("TransferMT") /\ ev.to # ev.who /\ PreBal(ev.to) = 0 /\ <<ev.to, ev.cls, ev.id>> \in gh.exHolder
+    [] c = "exholder_transfer_rej" -> Rej("TransferMT") /\ Plain /\ PreHasMT /\ ev.amt > 0 /\ PreBal(ev.who) = 0 /\ ExHolder
+    [] c = "exholder_burn_rej" -> Rej("BurnMT") /\ Plain /\ PreHasMT /\ ev.amt > 0 /\ PreBal(ev.who) = 0 /\ ExHolder
+    [] c = "never_holder_transfer_rej" -> Rej("TransferMT") /\ Plain /\ PreHasMT /\ ev.amt > 0 /\ PreBal(ev.who) = 0 /\ ~ExHolder
+    [] c = "burned_out_mint_ok" -> Acc("MintMT") /\ ev.id # "" /\ PreHasMT /\ SupOf(pre, ev.cls, ev.id) = 0
+    [] c = "burned_out_edit_ok" -> Acc("EditMT") /\ PreHasMT /\ SupOf(pre, ev.cls, ev.id) = 0
+    [] c = "burned_out_transfer_rej" -> Rej("TransferMT") /\ Plain /\ PreHasMT /\ SupOf(pre, ev.cls, ev.id) = 0 /\ ev.amt > 0
+    [] c = "burned_out_burn_rej" -> Rej("BurnMT") /\ Plain /\ PreHasMT /\ SupOf(pre, ev.cls, ev.id) = 0 /\ ev.amt > 0
+    [] c = "holder_not_owner_mint_rej" -> Rej("MintMT") /\ Plain /\ IsStranger /\ PreHasMT /\ PreBal(ev.who) > 0 /\ ev.amt > 0
+    [] c = "holder_not_owner_edit_rej" -> Rej("EditMT") /\ Plain /\ IsStranger /\ PreHasMT /\ PreBal(ev.who) > 0
+    [] c = "holder_not_owner_handover_rej" -> Rej("TransferDenom") /\ Plain /\ IsStranger
+                                               /\ \E m \in DOMAIN pre.mts[ev.cls] : BalOf(pre, ev.who, ev.cls, m) > 0
+    [] c = "owner_not_holder_transfer_rej" -> Rej("TransferMT") /\ Plain /\ IsOwner /\ PreHasMT /\ PreBal(ev.who) = 0 /\ Holders # {} /\ ev.amt > 0
+    [] c = "owner_not_holder_burn_rej" -> Rej("BurnMT") /\ Plain /\ IsOwner /\ PreHasMT /\ PreBal(ev.who) = 0 /\ Holders # {} /\ ev.amt > 0
+    [] c = "exowner_edit_rej" -> Rej("EditMT") /\ Plain /\ IsStranger /\ PreHasMT /\ ExOwner
+    [] c = "exowner_handover_rej" -> Rej("TransferDenom") /\ Plain /\ IsStranger /\ ExOwner
+    [] c = "exowner_still_holder_transfer_ok" -> Acc("TransferMT") /\ ExOwner /\ IsStranger
+    [] c = "handover_to_self_ok" -> Acc("TransferDenom") /\ ev.to = ev.who
+    [] c = "mint_data_on_existing_rej" -> Rej("MintMT") /\ IsOwner /\ PreHasMT /\ ev.data # "" /\ ev.amt > 0
+    [] c = "issue_blank_name_rej" -> Rej("IssueDenom") /\ ev.cname = " "
+    [] c = "mint_default_recipient_ok" -> Acc("MintMT") /\ ev.to = ""
+    [] c = "second_class_same_owner_ok" -> Acc("IssueDenom") /\ \E d \in DOMAIN pre.cls : pre.cls[d].owner = ev.who
+    [] c = "probe_state_rej" -> ~ev.ok /\ ev.name # "TxFailed" /\ Plain /\ Apply(pre, ev).why \notin BasicWhys \cup {"unknown"}
+    [] OTHER -> FALSE
 Exercised ==
   IF ev.name \in {"Init", "EndBlock"} THEN {} ELSE
   {c \in {"issue_ok", "mint_new_ok", "mint_more_ok", "mint_stranger_rej", "mint_overflow_rej",
@@ -95,7 +186,7 @@ Exercised ==
           "base32_mint", "base32_transfer", "base32_burn", "base32_overflow_rej",
           "base53_mint", "base53_transfer", "base53_burn", "base53_overflow_rej",
           "base62_mint", "base62_transfer", "base62_burn", "base62_overflow_rej",
-          "base63_mint", "base63_transfer", "base63_burn", "base63_overflow_rej"} :
+          "base63_mint", "base63_transfer", "base63_burn", "base63_overflow_rej"} \cup ProbeNames :
      CASE c = "issue_ok" -> IsOp("IssueDenom") /\ ev.ok
        [] c = "mint_new_ok" -> IsOp("MintMT") /\ ev.ok /\ ev.id = ""
        [] c = "mint_more_ok" -> IsOp("MintMT") /\ ev.ok /\ ev.id # ""
@@ -123,6 +214,7 @@ Exercised ==
        [] c = "old_owner_mint_rej" -> IsOp("MintMT") /\ ~ev.ok /\ IsStranger /\ ev.cls \in gh.handed
        [] c = "new_owner_mint_ok" -> IsOp("MintMT") /\ ev.ok /\ ev.cls \in gh.handed
        [] c = "reject" -> ~ev.ok
+       [] c \in ProbeNames -> ProbeEx(c)
        \* magnitude strata: operations with amounts >= 2^base, per base
        [] \E b \in BaseNames : c = b \o "_mint" ->
             \E b \in BaseNames : c = b \o "_mint" /\ BaseOp(BaseNum(b), "MintMT")
